@@ -411,40 +411,42 @@ impl StrExt for str {
             };
             re.is_match(self.as_bytes())
         } else {
-            match self.find(pattern) {
-                Some(start) => {
-                    let end = start + pattern.len();
+            // Look at each occurrence of the pattern in turn. This is a loop rather than a
+            // recursion because the number of occurrences is controlled by the sender of the event.
+            let mut haystack = self;
 
-                    // Look if the match has word boundaries.
-                    let word_boundary_start = !self.char_at(start).is_word_char()
-                        || !self.find_prev_char(start).is_some_and(|c| c.is_word_char());
+            loop {
+                let Some(start) = haystack.find(pattern) else {
+                    return false;
+                };
+                let end = start + pattern.len();
 
-                    if word_boundary_start {
-                        let word_boundary_end = end == self.len()
-                            || !self.find_prev_char(end).unwrap().is_word_char()
-                            || !self.char_at(end).is_word_char();
+                // Look if the match has word boundaries.
+                let word_boundary_start = !haystack.char_at(start).is_word_char()
+                    || !haystack.find_prev_char(start).is_some_and(|c| c.is_word_char());
 
-                        if word_boundary_end {
-                            return true;
-                        }
+                if word_boundary_start {
+                    let word_boundary_end = end == haystack.len()
+                        || !haystack.find_prev_char(end).unwrap().is_word_char()
+                        || !haystack.char_at(end).is_word_char();
+
+                    if word_boundary_end {
+                        return true;
                     }
-
-                    // Find next word.
-                    let non_word_str = &self[start..];
-                    let non_word = match non_word_str.find(|c: char| !c.is_word_char()) {
-                        Some(pos) => pos,
-                        None => return false,
-                    };
-
-                    let word_str = &non_word_str[non_word..];
-                    let word = match word_str.find(|c: char| c.is_word_char()) {
-                        Some(pos) => pos,
-                        None => return false,
-                    };
-
-                    word_str[word..].matches_word(pattern)
                 }
-                None => false,
+
+                // Find next word.
+                let non_word_str = &haystack[start..];
+                let Some(non_word) = non_word_str.find(|c: char| !c.is_word_char()) else {
+                    return false;
+                };
+
+                let word_str = &non_word_str[non_word..];
+                let Some(word) = word_str.find(|c: char| c.is_word_char()) else {
+                    return false;
+                };
+
+                haystack = &word_str[word..];
             }
         }
     }
